@@ -499,6 +499,33 @@ func c05ScriptPrograms(g *Gen, n int, f func(p *ir.Program)) {
 	}
 }
 
+// c05Wide builds a program in which about w values are alive at once: `phases` rounds, each producing w
+// values from the running value and then folding them into one (the shape of pass.TestAllocator, scaled
+// past a machine word of simultaneously live values).
+func c05Wide(w, phases int) *ir.Program {
+	p := &ir.Program{}
+	next := 1
+	cur := 0
+	for ph := 0; ph < phases; ph++ {
+		vals := []int{}
+		prev := cur
+		for i := 0; i < w; i++ {
+			p.AddInstruction(&ir.Instruction{Output: ir.Index(next), Op: ir.Add{X: ir.Index(prev), Y: ir.Index(cur)}})
+			prev = next
+			vals = append(vals, next)
+			next++
+		}
+		acc := vals[0]
+		for _, v := range vals[1:] {
+			p.AddInstruction(&ir.Instruction{Output: ir.Index(next), Op: ir.Add{X: ir.Index(acc), Y: ir.Index(v)}})
+			acc = next
+			next++
+		}
+		cur = acc
+	}
+	return p
+}
+
 func genC05(g *Gen, emit c05Emitter) {
 	// the empty program (Allocator.Execute refuses it)
 	emit(g, &ir.Program{}, true)
@@ -552,6 +579,14 @@ func genC05(g *Gen, emit c05Emitter) {
 			emit(g, p, false)
 			g.Count("dangling-or-wf")
 		}
+	}
+	// wide programs: more simultaneously live values than bits in a machine word
+	for _, w := range []int{3, 31, 32, 33, 62, 63, 64, 65, 66, 70, 100, 129, 140} {
+		emit(g, c05Wide(w, 1), false)
+		if w >= 60 && w <= 70 {
+			emit(g, c05Wide(w, 3), false)
+		}
+		g.Count("wide")
 	}
 	// decompiled search results
 	c05SearchPrograms(g, c05Targets(g, g.pick(25, 150)), g.pick(4, 8), func(p *ir.Program) {
